@@ -252,7 +252,10 @@ def obligations(tier, seed):
     for sname, convex, batch in scfg:
         add("C12/%s.%s.%s" % ("ConvexPolyhedron" if convex else "Polyhedron", sname, batch), polyhedron_body(sname, convex, batch),
             "axis-aligned solid %s, wave vector free; batch form %s" % (sname, batch), paths=3)
-    for centre, batch in ([((0, 0, 0), "single"), ((2, -1, 3), "with_zero")] if tier == "quick" else [((0, 0, 0), "single"), ((0, 0, 0), "with_zero"), ((2, -1, 3), "single"), ((2, -1, 3), "with_zero"), ((-4, 5, 1), "single")]):
+    # centres in general position, at the origin, on a coordinate axis and in a coordinate plane
+    for centre, batch in ([((0, 0, 0), "single"), ((2, -1, 3), "with_zero"), ((2, 0, 0), "single"), ((0, -1, 3), "single")] if tier == "quick" else
+                          [((0, 0, 0), "single"), ((0, 0, 0), "with_zero"), ((2, -1, 3), "single"), ((2, -1, 3), "with_zero"), ((-4, 5, 1), "single"),
+                           ((2, 0, 0), "single"), ((0, -1, 3), "single"), ((0, 0, -2), "with_zero"), ((3, 1, 0), "single")]):
         nm = "C12/Sphere.c%s.%s" % ("_".join(map(str, centre)), batch)
         obs.append((nm, (lambda nm=nm, centre=centre, batch=batch: _run_refining(
             nm, names + ["R", "t4", "t5"], sphere_body(centre, batch), positive=["R"], pre=lambda V: [V["qx"] * V["qx"] + V["qy"] * V["qy"] + V["qz"] * V["qz"] >= F(1, 100)],
